@@ -289,6 +289,7 @@ bool Directory::create(const String& dir)
     String basename = File::getBaseName(dir);
     if(basename == "." || basename == "..")
       return true;
+    return Directory::exists(dir); // e.g. the directory already exists
   }
   return true;
 }
